@@ -6,8 +6,8 @@ ids="$@"; [ -z "$ids" ] && ids=$(ls seeded | grep '^C')
 for id in $ids; do
   git -C /repo checkout -q -- . 
   if ! git -C /repo apply /verif/seeded/$id/patch.diff; then echo "$id: patch does not apply" > seeded/$id/check_result.txt; continue; fi
-  props=$id
-  [ -f seeded/$id/also_check.txt ] && props="$id $(cat seeded/$id/also_check.txt)"
+  props=${id:0:3}
+  [ -f seeded/$id/also_check.txt ] && props="${id:0:3} $(cat seeded/$id/also_check.txt)"
   : > seeded/$id/check_result.txt
   for p in $props; do
     if grep -q "\"property_id\": \"$p\"" MANIFEST.json && ! python3 -c "import json,sys; m=json.load(open('MANIFEST.json')); sys.exit(0 if any(c['property_id']=='$p' for c in m['checks']) else 1)"; then
